@@ -413,7 +413,8 @@ def encReading (r : PyEmit.PR PyEmit.PyExpr) (want : Option PyEmit.PyExpr) : Str
 def tmpName (i : Nat) : Text := [0, i]
 
 /-- the outcome of the operation of an event, computed by the evaluator itself on the operand values -/
-def evOut (ρ : Env) : Ev → String
+def evOut (ρ : Env) (ev : Ev) : String :=
+  match ev.op with
   | .load _ o => "load|" ++ encOut o
   | .loadFn f => "loadfn|" ++ (if calleeResolves ρ f then "ok" else "otherError")
   | .getattr v n => "getattr|" ++ encOut (eval (ρ.bind (tmpName 0) v) (.member (.name (tmpName 0)) n))
@@ -430,6 +431,7 @@ def evOut (ρ : Env) : Ev → String
     let names := (List.range args.length).map tmpName
     let ρ' : Env := { ρ with vars := (names.zip args).reverse ++ ρ.vars }
     "call|" ++ encOut (eval ρ' (.funCall f (names.map .name)))
+  | .getmeth _ _ => "getmeth|" ++ (match ev.raised with | none => "ok" | some o => encOut o)
   | .callMethod _ _ _ => "callmethod|-"
   | .iter v => "iter|" ++ (match iterItems v with | some _ => "ok" | none => "typeError")
   | .range a b => "range|" ++ (match rangeArg a, rangeArg b with | some _, some _ => "ok" | _, _ => "typeError")
